@@ -500,8 +500,33 @@ def u_builder_epochs(ip):
     c.oblige("arguments_forwarded_under_their_names", named.get("warmup_duration") is W and named.get("posterior_duration") is P and named.get("term_duration") is T
              and named.get("thinning_posterior") is tp and named.get("thinning_warmup") is tw and "init_duration" not in named and "base_duration" not in named)
     c.oblige("schedule_goes_through_epoch_manager", b.f["_epochs"].f["_configs"] == ("managed", "SCHEDULE"))
-    ip.call(method(ip, b, "set_epochs"), ["USER"], {})
-    c.oblige("user_schedule_goes_through_epoch_manager", b.f["_epochs"].f["_configs"] == ("managed", "USER"))
+    user = PyObj("user_schedule")
+    ip.call(method(ip, b, "set_epochs"), [user], {})
+    c.oblige("user_schedule_goes_through_epoch_manager", b.f["_epochs"].f["_configs"] == ("managed", user))
+
+
+@unit("C16.set_epochs_takes_any_iterable", "C16", [f"{BUILDER}::EngineBuilder.set_epochs", f"{BUILDER}::EngineBuilder.epochs.fget", f"{BUILDER}::EngineBuilder.build",
+                                                     f"{EPOCH}::EpochManager.__init__", f"{EPOCH}::EpochManager.append"],
+      assumptions=["REAL builder; the schedule handed over as a list, a tuple and a ONE-SHOT iterator (set_epochs is declared to take an Iterable of epoch configurations)"])
+def u_set_epochs_iterable(ip):
+    """whatever kind of iterable carries it, the schedule that reaches the epoch manager is the WHOLE schedule given (valid ones accepted as they are,
+    the engine's chunk length divides their durations), and an invalid schedule is rejected."""
+    c = ip.ctx
+    from contracts.c10 import builder_setup
+    b, mk = builder_setup(ip)
+    good = ((0, 1, 1), (3, 6, 1), (4, 9, 3), (4, 12, 1))
+    bad = ((0, 1, 1), (3, 6, 1), (4, 10, 3))  # posterior duration not a multiple of its thinning
+    wrap = {"list": list, "tuple": tuple, "iterator": lambda xs: PyObj("iterator", items=list(xs), pos=0)}
+    for how, w in wrap.items():
+        cfgs = mk(good)
+        kind, r = try_call(ip, method(ip, b, "set_epochs"), [w(cfgs)], {})
+        got = ip.getattr(b, "epochs") if kind == "ok" else None
+        c.oblige(f"{how}.valid_schedule_taken_over_completely", kind == "ok" and got is not None and len(got) == len(cfgs) and all(g is x for g, x in zip(got, cfgs)), raised=str(getattr(r, "args", "")))
+        kind_b, eng = try_call(ip, method(ip, b, "build"), [], {}) if kind == "ok" else ("raise", r)
+        c.oblige(f"{how}.chunk_length_divides_the_durations", kind_b == "ok" and is_z3(z3.simplify(to_sort(eng.f["_jitted_sample_duration"], Int))) and z3.simplify(to_sort(eng.f["_jitted_sample_duration"], Int)).as_long() == 3,
+                 structural=True)
+        kind2, r2 = try_call(ip, method(ip, b, "set_epochs"), [w(mk(bad))], {})
+        c.oblige(f"{how}.invalid_schedule_rejected", kind2 == "raise" and r2.cls == "RuntimeError")
 
 
 # the builder and the engine constructor end to end through the public API (same harness as C10.build_end_to_end)
